@@ -325,7 +325,18 @@ func (h *histRunner) close() {
 	os.RemoveAll(h.dir)
 }
 
+// histFailStep remembers the step of the last finding so that a failing history can be trimmed.
+var histFailStep = -1
+
+func trimHist(c HistCase) HistCase {
+	if histFailStep >= 0 && histFailStep+1 < len(c.Ops) {
+		c.Ops = append([]Op(nil), c.Ops[:histFailStep+1]...)
+	}
+	return c
+}
+
 func (h *histRunner) finding(key, format string, args ...interface{}) Finding {
+	histFailStep = h.step
 	return Finding{Property: h.prop, Key: key, Detail: fmt.Sprintf("step %d now=%d: ", h.step, h.now) + fmt.Sprintf(format, args...)}
 }
 
